@@ -195,7 +195,7 @@ def handler_lines(h, indent="  "):
 def config_text(cfg):
     lines = []
     for sec in cfg:
-        lines.append("<%s>" % sec["type"])
+        lines.append("<%s%s>" % (sec["type"], (" " + sec["secname"]) if sec.get("secname") else ""))
         if sec.get("name") is not None:
             lines.append("  name " + sec["name"])
         if sec.get("level") is not None:
@@ -524,7 +524,8 @@ def gen_format(rng, style):
         elif r < 0.7:
             parts.append({"classic": "%%", "format": "{{x}}", "template": "$$", "safe-template": "$$"}[style])
         elif r < 0.8:
-            parts.append(rng.choice(["text", "a-b", "100", "\\n", "\\t", ":", "[x]"]))
+            parts.append(rng.choice(["text", "a-b", "100", "\\n", "\\t", ":", "[x]", "\\r\\n", "\\n\\r", "\\r",
+                                     "\\b\\f", "\\t\\n", "a\\r\\nb", "\\\\n"]))
         elif r < 0.87:
             parts.append({"classic": "%(nosuchfield)s", "format": "{nosuchfield}", "template": "${nosuchfield}",
                           "safe-template": "$nosuchfield"}[style])
@@ -606,6 +607,13 @@ def gen_config(rng, idx):
                 h2["arbitrary-fields"] = "false"
                 sec["handlers"].insert(sec["handlers"].index(h1) + 1, h2)
                 break
+    # a name on the section itself (the slot allows it) is not the name of the logger
+    for j, sec in enumerate(cfg):
+        if rng.random() < 0.3:
+            sec["secname"] = rng.choice(["Main%d" % j, "zcv.c20.secname%d" % j, "s%d" % j, "Root%d" % j])
+    if len(cfg) == 1 and cfg[0]["type"] == "logger" and rng.random() < 0.15:
+        cfg[0]["name"] = None          # no 'name' key: the root logger
+        cfg[0]["secname"] = "zcv.c20.unkeyed%d" % idx
     return cfg
 
 
@@ -867,7 +875,7 @@ def run_shard(spec):
                 res.sample({"text": config_text_safe(cfg), "ops": ops})
         for sig, d in fl:
             res.fail(sig, {"config": cfg, "ops": [list(o) for o in ops]}, d)
-        if i % 3 == 0 and any(s["type"] == "logger" for s in cfg):
+        if i % 3 == 0 and any(s["type"] == "logger" for s in cfg) and all(s.get("name") for s in cfg if s["type"] == "logger"):
             import copy
             cfg2 = copy.deepcopy(cfg)
             for s in cfg2:
